@@ -165,11 +165,145 @@ theorem sender_fresh_tree (P : Prim B) (k : Nat) (enc : B) (before between : Lis
     (run_FInv P k before _ (FInv_new k enc) (fun q hq => hleaf _ (hbefore q hq))).1
   obtain ⟨key, ρ, hkey, hρ, hgen, _⟩ := step_next_at P k t0 i kt h0 (hleaf i hi)
   have hs := step_FInv P k t0 (.next i kt) h0 (hleaf i hi)
-  have hfr := run_frame P k i kt hi.1 between t1 hs.1 hs.2.2.2.1
+  have hstored : hasKey t1.known i :=
+    hs.2.2.2.1.resolve_right (by rintro ⟨_, _, _, hq, _⟩; cases hq)
+  have hfr := run_frame P k i kt hi.1 between t1 hs.1 hstored
     (fun q hq => ⟨hleaf _ (hbetween q hq).1, (hbetween q hq).2⟩)
   obtain ⟨key', ρ', hkey', _, _, hprev⟩ := step_next_at P k t2 i kt hfr.1 (hleaf i hi)
   refine ⟨key, key', hkey, hkey', ?_⟩
   rw [hprev ρ (by rw [hfr.2.2]; exact hρ), hgen]
+
+/-! ### The repaired `message_key_generation`: a refused request no longer changes the tree
+
+`SecretTree::message_key_generation` used to call `take_leaf_ratchet` first — which consumes the
+tree down to the leaf, or turns the leaf's stored secret into its two ratchets — and only then
+asked the ratchet, so a request far beyond the window was rejected *after* the tree had been
+restructured.  The repaired function (model: `SecretTree.messageKeyGeneration`) first tests
+`generation > 1024 ∧ ¬ (known_secrets[leaf] is a Ratchet)` and returns
+`InvalidFutureGeneration` without touching anything.  `t.hasRatchet i` is that test's second half
+(`Model/SecretTree.lean`): the entry of `i` is a `Ratchet` node; a `Secret` entry and no entry both
+give `false`.  `SecretTree.messageKeyGenerationOld` (`Proofs/SecretTree.lean`) is the body before
+the repair, which is still what runs when the request is not refused early. -/
+
+/-- the repaired function, exactly: early refusal, else the old body -/
+theorem message_key_generation_repaired (P : Prim B) (t : SecretTree B) (i : Nat) (kt : KeyType)
+    (g : Nat) :
+    t.messageKeyGeneration P i kt g =
+      if 1024 < g ∧ t.hasRatchet i = false then (.error (.invalidFutureGeneration g), t)
+      else t.messageKeyGenerationOld P i kt g :=
+  messageKeyGeneration_eq P t i kt g
+
+/-- `hasRatchet` spelled out on the stored map -/
+theorem hasRatchet_false_iff (t : SecretTree B) (i : Nat) :
+    t.hasRatchet i = false ↔ ∀ a h, mapGet t.known i ≠ some (.ratchet a h) :=
+  hasRatchet_eq_false_iff t i
+
+/-- (1) A request for a generation beyond 1024 at an index that has no ratchets yet (nothing
+stored there, or a not yet started leaf secret) is answered `InvalidFutureGeneration` and the tree
+returned is `t` ITSELF — for every tree and every index, no invariant needed. -/
+theorem refused_future_generation_changes_nothing (P : Prim B) (t : SecretTree B) (i : Nat)
+    (kt : KeyType) (g : Nat) (hg : 1024 < g) (hn : t.hasRatchet i = false) :
+    t.messageKeyGeneration P i kt g = (.error (.invalidFutureGeneration g), t) :=
+  messageKeyGeneration_refused P t i kt g ⟨hg, hn⟩
+
+/-- the two ways of having no ratchets, as hypotheses on the map -/
+theorem refused_future_generation_untouched (P : Prim B) (t : SecretTree B) (i : Nat)
+    (kt : KeyType) (g : Nat) (hg : 1024 < g)
+    (hn : mapGet t.known i = none ∨ ∃ s, mapGet t.known i = some (.secret s)) :
+    t.messageKeyGeneration P i kt g = (.error (.invalidFutureGeneration g), t) := by
+  apply refused_future_generation_changes_nothing P t i kt g hg
+  rw [hasRatchet_false_iff]
+  intro a h hc
+  rcases hn with hn | ⟨s, hn⟩ <;> rw [hn] at hc <;> cases hc
+
+/-- (1, started leaf) If ratchets ARE stored at `i`, the old path is taken whatever `g` is.  When
+the request then fails (with any error `e`), the result is exactly: the entry of `i` removed and
+the IDENTICAL node `.ratchet a h` inserted again (`mapInsert` puts it at the head of the association
+list; `HashMap::insert` of an equal value in the code).  So the returned tree differs from `t` at
+most in the position of that entry in the list … -/
+theorem failed_request_on_started_leaf (P : Prim B) (t : SecretTree B) (i : Nat) (kt : KeyType)
+    (g : Nat) (a h : Ratchet B) (e : Err) (hn : mapGet t.known i = some (.ratchet a h))
+    (he : (t.messageKeyGeneration P i kt g).1 = .error e) :
+    t.messageKeyGeneration P i kt g = (.error e,
+      { known := mapInsert (mapRemove t.known i).2 i (.ratchet a h), leafCount := t.leafCount }) ∧
+    (e = .keyMissing g ∨ e = .overflow ∨ e = .invalidFutureGeneration g) := by
+  have h1 := messageKeyGeneration_started_error P t i kt g a h e hn he
+  refine ⟨h1, ?_⟩
+  have hnr : ¬ Refused t i g := by
+    intro hc
+    have := (hasRatchet_eq_true_iff t i).2 ⟨a, h, hn⟩
+    rw [hc.2] at this; cases this
+  have hv : (mapRemove t.known i).1 = some (.ratchet a h) := hn
+  rw [messageKeyGeneration_not_refused P t i kt g hnr, messageKeyGenerationOld_eq,
+    takeLeafRatchet_eq, hv] at he
+  exact get_err_kind P _ g e he
+
+/-- … and, for EVERY tree, index, key type and generation: a request that the ratchet rejects
+(any error other than the two tree errors `LeafNodeNoChildren` / `InvalidLeafConsumption` of
+`take_leaf_ratchet`, i.e. `KeyMissing`, `InvalidFutureGeneration` or the overflow) leaves the tree
+unchanged as a map: same leaf count and every lookup returns the same node.  (Before the repair
+this failed for `InvalidFutureGeneration` on a not yet started leaf: see the examples below.) -/
+theorem rejected_request_changes_no_lookup (P : Prim B) (t : SecretTree B) (i : Nat) (kt : KeyType)
+    (g : Nat) (e : Err) (he : (t.messageKeyGeneration P i kt g).1 = .error e)
+    (h1 : e ≠ .leafNodeNoChildren) (h2 : e ≠ .invalidLeafConsumption) :
+    (t.messageKeyGeneration P i kt g).2.leafCount = t.leafCount ∧
+    ∀ x, mapGet (t.messageKeyGeneration P i kt g).2.known x = mapGet t.known x :=
+  messageKeyGeneration_error_lookup P t i kt g e he h1 h2
+
+/-- (2) The repair changes the state only, never the answer — with one exception in the KIND of
+error, which the theorem states exactly.  For every tree, index, key type and generation: the
+result of the repaired function equals the result of the old body, OR the request is refused early
+with `InvalidFutureGeneration` where the old body failed in `take_leaf_ratchet`
+(`LeafNodeNoChildren` / `InvalidLeafConsumption`: the index is not reachable in the tree).
+The unconditional "results are equal" is FALSE: see `repair_changes_error_kind_outside_tree`.
+(Uses: freshly derived ratchets are at generation 0 and `0 + 1024 < 2^32`, so they answer
+`InvalidFutureGeneration` to every `g > 1024`.) -/
+theorem repair_verdict (P : Prim B) (t : SecretTree B) (i : Nat) (kt : KeyType) (g : Nat) :
+    (t.messageKeyGeneration P i kt g).1 = (t.messageKeyGenerationOld P i kt g).1 ∨
+    ((1024 < g ∧ t.hasRatchet i = false) ∧
+      (t.messageKeyGeneration P i kt g).1 = .error (.invalidFutureGeneration g) ∧
+      ((t.messageKeyGenerationOld P i kt g).1 = .error .leafNodeNoChildren ∨
+       (t.messageKeyGenerationOld P i kt g).1 = .error .invalidLeafConsumption)) :=
+  ST.repair_verdict P t i kt g
+
+/-- (2) unconditionally: the same requests succeed, with the same key -/
+theorem repair_same_success (P : Prim B) (t : SecretTree B) (i : Nat) (kt : KeyType) (g : Nat)
+    (key : MsgKey B) :
+    (t.messageKeyGeneration P i kt g).1 = .ok key ↔
+      (t.messageKeyGenerationOld P i kt g).1 = .ok key := by
+  rcases ST.repair_verdict P t i kt g with h | ⟨_, h1, h2 | h2⟩
+  · rw [h]
+  · rw [h1, h2]; constructor <;> intro hc <;> cases hc
+  · rw [h1, h2]; constructor <;> intro hc <;> cases hc
+
+/-- (2) whenever the old body did not fail with a tree error, the results are equal -/
+theorem repair_same_verdict (P : Prim B) (t : SecretTree B) (i : Nat) (kt : KeyType) (g : Nat)
+    (h1 : (t.messageKeyGenerationOld P i kt g).1 ≠ .error .leafNodeNoChildren)
+    (h2 : (t.messageKeyGenerationOld P i kt g).1 ≠ .error .invalidLeafConsumption) :
+    (t.messageKeyGeneration P i kt g).1 = (t.messageKeyGenerationOld P i kt g).1 := by
+  rcases ST.repair_verdict P t i kt g with h | ⟨_, _, h | h⟩
+  · exact h
+  · exact absurd h h1
+  · exact absurd h h2
+
+/-- (2) in particular at every leaf of every tree the code can reach: on a tree obtained from
+`SecretTree::new` by any requests at leaves (run with the REPAIRED function), for a leaf index,
+the repaired function and the old body give the same result, whatever `kt` and `g`. -/
+theorem repair_same_verdict_at_leaf (P : Prim B) (k : Nat) (enc : B) (ops : List Req)
+    (hops : ∀ q ∈ ops, q.idx % 2 = 0 ∧ q.idx ≤ 2 * (2 ^ k - 1))
+    (i : Nat) (kt : KeyType) (g : Nat) (hi : i % 2 = 0 ∧ i ≤ 2 * (2 ^ k - 1)) :
+    let t := (SecretTree.run P (SecretTree.new (2 ^ k) enc) ops).2
+    (t.messageKeyGeneration P i kt g).1 = (t.messageKeyGenerationOld P i kt g).1 := by
+  intro t
+  have hleaf : ∀ j, (j % 2 = 0 ∧ j ≤ 2 * (2 ^ k - 1)) → IsLeafOf k j := by
+    intro j hj
+    have := Nat.two_pow_pos k
+    have := pow_succ' k
+    unfold IsLeafOf; omega
+  have h0 : FInv k t :=
+    (run_FInv P k ops _ (FInv_new k enc) (fun q hq => hleaf _ (hops q hq))).1
+  have := old_no_tree_error P k t i kt g h0 (hleaf i hi)
+  exact repair_same_verdict P t i kt g this.1 this.2
 
 /-! ### No two encryptions of an epoch share a key or a nonce
 
@@ -286,6 +420,52 @@ example : (results (SecretTree.run toyPrim (SecretTree.new (2 ^ 2) [7])
       [.next 2 .application, .next 6 .application, .next 2 .handshake, .get 0 .application 3,
        .next 2 .application, .next 2 .application]).1).map okGen =
     [some 0, some 0, some 0, some 3, some 1, some 2] := by decide +kernel
+
+-- the repair, on the tree with 4 leaves (nodes 0…6, root 3): a request 2000 generations ahead at
+-- the untouched leaf node 4 is refused and the tree is literally the one before …
+example : (SecretTree.new (2 ^ 2) [7]).messageKeyGeneration toyPrim 4 .application 2000 =
+    (.error (.invalidFutureGeneration 2000), SecretTree.new (2 ^ 2) [7]) := by decide +kernel
+example : ((SecretTree.new (2 ^ 2) [7]).messageKeyGeneration toyPrim 4 .application 2000).2.known =
+    [(3, .secret [7])] := by decide +kernel
+-- … whereas the old body gave the same answer after opening the tree down to the leaf
+example : ((SecretTree.new (2 ^ 2) [7]).messageKeyGenerationOld toyPrim 4 .application 2000).1 =
+      .error (.invalidFutureGeneration 2000) ∧
+    ((SecretTree.new (2 ^ 2) [7]).messageKeyGenerationOld toyPrim 4 .application 2000).2.known.map
+      (·.1) = [4, 6, 1] := by decide +kernel
+-- a stored, not yet started leaf secret (node 6 after leaf 4 was used) stays a secret
+example : let t := (SecretTree.step toyPrim (SecretTree.new (2 ^ 2) [7]) (.next 4 .application)).2
+    t.hasRatchet 6 = false ∧ mapGet t.known 6 ≠ none ∧
+    t.messageKeyGeneration toyPrim 6 .handshake 1025 = (.error (.invalidFutureGeneration 1025), t) ∧
+    (t.messageKeyGenerationOld toyPrim 6 .handshake 1025).2 ≠ t := by decide +kernel
+-- a started leaf: the old path; the identical node is stored back (here it already is the head
+-- of the list, so the tree is literally unchanged); 1025 is inside the window of generation 1
+example : let t := (SecretTree.step toyPrim (SecretTree.new (2 ^ 2) [7]) (.next 4 .application)).2
+    t.hasRatchet 4 = true ∧
+    t.messageKeyGeneration toyPrim 4 .application 1026 = (.error (.invalidFutureGeneration 1026), t) ∧
+    okGen (t.messageKeyGeneration toyPrim 4 .application 1025).1 = some 1025 := by decide +kernel
+-- `refused_future_generation_changes_nothing` instantiated
+example : (SecretTree.new (2 ^ 2) [7]).messageKeyGeneration toyPrim 4 .application 2000 =
+    (.error (.invalidFutureGeneration 2000), SecretTree.new (2 ^ 2) [7]) :=
+  refused_future_generation_changes_nothing toyPrim _ 4 .application 2000 (by decide)
+    (by decide +kernel)
+
+/-- the unconditional form of (2) is false: at an index outside the tree (node 8 of a tree with
+nodes 0…6) the old body fails in `take_leaf_ratchet`, the repaired function refuses earlier with a
+different error (both reject) -/
+theorem repair_changes_error_kind_outside_tree :
+    ((SecretTree.new (2 ^ 2) [7]).messageKeyGenerationOld toyPrim 8 .application 2000).1 =
+      .error .invalidLeafConsumption ∧
+    ((SecretTree.new (2 ^ 2) [7]).messageKeyGeneration toyPrim 8 .application 2000).1 =
+      .error (.invalidFutureGeneration 2000) := by decide +kernel
+
+/-- a side effect of the repair: a far-future request at a PARENT index (5, the parent of leaves 4
+and 6; callers never pass one) used to turn the parent's secret into ratchets, losing the subtree
+(cf. `C13.nonleaf_request_breaks_subtree`); now it is refused and the tree is intact -/
+theorem repair_protects_parent_index :
+    ((SecretTree.new (2 ^ 2) [7]).messageKeyGenerationOld toyPrim 5 .application 2000).2.known.map
+      (·.1) = [5, 1] ∧
+    ((SecretTree.new (2 ^ 2) [7]).messageKeyGeneration toyPrim 5 .application 2000).2 =
+      SecretTree.new (2 ^ 2) [7] := by decide +kernel
 
 -- free term algebra: the first application key of leaf node 0 in a tree with 2 leaves
 example : (specMsgKey (termPrim 32 16 12) 1 (.ascii "enc") 0 .application 0).map (·.key) =
